@@ -208,6 +208,17 @@ func (g *Gen) runOnce() {
 		g.assume(st, env.evalBool(a.Expr))
 	}
 	fr.entry = st.clone()
+	if len(con.StableAssumes) > 0 {
+		// a known-finding class that is excluded for the whole run of the function (a configuration
+		// predicate): re-assumed over the function's parameters after every whole-heap havoc
+		g.stableAssume = func(hs *State) {
+			for _, a := range con.StableAssumes {
+				env := g.envFor(fr, hs)
+				env.preferParams = true
+				g.assume(hs, env.evalBool(a.Expr))
+			}
+		}
+	}
 	// vacuity: the precondition must be satisfiable
 	if len(con.Requires)+len(con.Assumes) > 0 {
 		o := &Obligation{Name: g.fnName() + "/vacuity/precondition satisfiable", Kind: "vacuity", Fn: g.fnName(), Props: con.Props, Reach: st.reach, Goal: "false", Expect: "sat"}
